@@ -33,12 +33,25 @@ class Prop:
         """-> next concrete op or None when the history ends (online generation)"""
         raise NotImplementedError
 
+    def ops(self, rng, ex, cfg):
+        """generator of concrete ops (online: may inspect ex between yields)"""
+        i = 0
+        while True:
+            op = self.next_op(rng, ex, i, cfg)
+            if op is None:
+                return
+            yield op
+            i += 1
+
     def monitor(self, ex, i, op, res, cfg):
         """-> violation dict or None"""
         return None
 
     def final(self, ex, cfg):
         return None
+
+    def before_op(self, ex, i, op, cfg):
+        pass
 
     def trace_valid(self, trace):
         return True
@@ -76,6 +89,7 @@ class Prop:
         viol = None
         i = 0
         for op in op_source:
+            self.before_op(ex, i, op, cfg)
             res = ex.apply(op)
             viol = self.monitor(ex, i, op, res, cfg)
             if ex.w.hang and not viol:
@@ -109,14 +123,9 @@ class Prop:
         cfg = trace.get("cfg", {})
 
         def source():
-            i = 0
-            while True:
-                op = self.next_op(rng, ex, i, cfg)
-                if op is None:
-                    return
+            for op in self.ops(rng, ex, cfg):
                 trace["ops"].append(op)
                 yield op
-                i += 1
         viol = self._drive(ex, trace, source())
         return self._result(ex, trace, viol)
 
